@@ -7,8 +7,8 @@ import NmVerif.Index.Roll
   Stable names:
     `Index.joinReshaped a b a' b' axis : Option IxView2`   concatenate of the two reshaped operands, read back to `a`, `b`
     `Index.shapeExpandDims s axis : Option Shape`          index::shape_expand_dims (one axis, normalised against dim+1)
-    `Index.stackView a b axis`      view::stack   — `expand_dims` normalises `axis`, the SAME raw axis goes to concatenate
-                                                    (which does not: negative axis ⇒ stack.negative-axis finding)
+    `Index.stackView a b axis`      view::stack   — `expand_dims` normalises `axis` against dim+1, the same raw axis goes to
+                                                    concatenate, which normalises it against the promoted rank dim+1 as well
     `Index.hstackView a b`          view::hstack  — axis = 0 if rank(lhs) = 1 else 1, no promotion
     `Index.vstackView a b`          view::vstack  — (n) ↦ (1,n); axis 0
     `Index.dstackView a b`          view::dstack  — (n) ↦ (1,n,1), (m,n) ↦ (m,n,1); axis 2
